@@ -54,7 +54,11 @@ RULE = ("cells = test problem x constructor options (sub-products listed in BOUN
         "name kind x noise type x option sub-product) build the problem under the scripted stream (zero and one generic "
         "vector, plus a default-prior sibling when the name is 'that of the default prior') and evaluate prior / "
         "likelihood / posterior on 6 points (origin, two basis vectors, two generic vectors - one outside the support of "
-        "the Uniform prior -, one point next to the prior's mean) against dense references")
+        "the Uniform prior -, one point next to the prior's mean) against dense references; *magnitude* cells (light) cross "
+        "the noise level {2^-20, documented default, 2^20} with the problem size {small, Deconvolution1D ``dim`` left at "
+        "its documented default 128 / Deconvolution2D 144 observations} and both noise types: forward on the complete "
+        "basis, noise map, likelihood.logd and posterior.logd on the lattice against the dense reference (log-determinant "
+        "by LU, never a product of variances)")
 BOUND = {
     "quick": "Deconvolution1D: dim {7,8} x PSF {gauss,moffat,defocus,custom asymmetric} x PSF_size {3,4,dim} x 5 BCs x "
              "noise {gaussian,scaledgaussian} x noise_std {0.01,0.1} (phantom sinc, default prior); + 10 phantoms x dim "
@@ -90,7 +94,10 @@ BOUND = {
              "default prior, 'x', 'z', inferred from the caller's variable} x [Deconvolution1D dim 8 x noise {gaussian, "
              "scaledgaussian} x (PSF, PSF_size, BC) in {(gauss,3,periodic), (custom,4,zero)}; legacy form dim 8 PSF gauss x 2 "
              "noise types; Deconvolution2D dim 4 (custom 3x3 PSF, Neumann) x 2 noise types x prior geometry {Image2D, "
-             "default}; WangCubic noise_std {1,.5} x data {default, 2.5}].",
+             "default}; WangCubic noise_std {1,.5} x data {default, 2.5}].  Magnitude facet (light): Deconvolution1D [dim 8 x noise_std {2^-20, 2^20}; dim left at its "
+             "default 128 x noise_std {2^-20, 0.01, 2^20}] x noise {gaussian, scaledgaussian} x (PSF, PSF_size, BC) in "
+             "{(gauss,5,periodic), (custom,4,zero)} (phantom gauss); Deconvolution2D [dim 5 x noise_std {2^-20, 2^20}; dim "
+             "12 x noise_std {2^-20, 0.0036, 2^20}] x 2 noise types x {(gauss,3,periodic), (custom 4x4,neumann)}.",
     "thorough": "Deconvolution1D full product dim {7,8,16} x 4 PSFs x PSF_size {3,4,5,dim} x 5 BCs x 10 phantoms x 2 "
                 "noise types x 2 noise_std, + 4 priors x 2 noise types x 2 std x 3 dims x 5 BCs x {gauss,custom}; legacy "
                 "dims {8,16}; light option classes as quick with dims {7,8,16}, PSF_size {default, dim+1, dim+2, dim+3, "
@@ -100,7 +107,8 @@ BOUND = {
                 "assigned Gaussian, LMRF, CMRF} x {MAP, ML, sample_posterior, sample_prior, UQ}; user-supplied prior: 6 "
                 "families x 4 name kinds x [Deconvolution1D dims {7,8,16} x 2 noise types x PSF {gauss, custom} (size 4) x "
                 "5 BCs; legacy dims {8,16} x PSF {gauss, custom} x 2 noise types; Deconvolution2D dims {4,5} x PSF {gauss, "
-                "custom} (size 3) x 5 BCs x 2 noise types x 2 prior geometries; WangCubic as quick]",
+                "custom} (size 3) x 5 BCs x 2 noise types x 2 prior geometries; WangCubic as quick]; magnitude facet: "
+                "as quick with 4 PSFs x 5 BCs (Deconvolution1D, PSF_size {5,4}) / {gauss, custom} x 5 BCs (Deconvolution2D)",
 }
 ASSUMPTIONS = [
     "documented PSFs are read as: Gaussian exp(-x^2/(2 s^2)), Moffat (1+x^2/s^2)^-1, out-of-focus = indicator of the disc "
@@ -151,12 +159,22 @@ ASSUMPTIONS = [
     "outside, where the posterior must be -inf as well).  Not covered: hierarchical / conditional priors, priors of a "
     "wrong dimension, the private problems _Deblur / _Deconv_1D, priors assigned after construction under another name "
     "than the likelihood's parameter (the assigned-prior histories use the problem's own parameter name)",
+    "magnitude facet: noise_std is documented as a 'scalar' without range, so 2^-20 and 2^20 are legal levels; the "
+    "log-densities themselves stay far inside the double range (|logd| < 1e16), only intermediate products / powers of "
+    "the variances would not; data - exactData is compared with the stated noise up to the rounding of forming the "
+    "difference (8 eps (|exactData| + |noise|)); the default size of Deconvolution2D (128 x 128) is not covered - 12 x "
+    "12 stands for 'more observations than the product of their variances can carry'",
     "history cells run the operation with numpy's global generator as re-seeded by the runner (the values drawn are not "
     "judged, only the problem's components before / after); an operation that raises counts as refused but must leave "
     "the components unchanged as well; histories of length one only (plus the after-MAP probe of the full "
     "Deconvolution1D cells)",
 ]
 
+# (h) magnitude facet: noise levels (dyadic, far below / at / far above the documented defaults) and the option
+#     sub-product they are crossed with in the quick tier
+MAG_LEVELS = [("2^-20", 2.0 ** -20), ("default", 0.01), ("2^20", 2.0 ** 20)]
+MAG_D1_OPTS = [("gauss", 5, "periodic"), ("custom", 4, "zero")]
+MAG_D2_OPTS = [("gauss", 3, "periodic"), ("custom", 4, "neumann")]
 PHANTOMS = ["gauss", "sinc", "vonmises", "square", "hat", "bumps", "derivgauss", "pc", "skyscraper", "array"]
 PRIORS = ["default", "gaussian-u", "gmrf", "lmrf"]
 NOISE = ["gaussian", "scaledgaussian"]
@@ -249,6 +267,19 @@ def cells(tier, seed):
                 d1(8, psf, (3, 4)[i % 2], bc, phantom=ph, noise=noise, std=0.05, spell="doc")
     for ph in PHANTOMS[:-1]:
         d1(8, "gauss", 3, "periodic", phantom=ph, noise="gaussian", std=0.05, phdef=True, light=True)
+    # --- (h) magnitude facet (light cells): noise level {2^-20, documented default 0.01, 2^20} x problem size {small,
+    #     ``dim`` left at its documented default 128} x noise type - the per-observation variances and their number are
+    #     such that products / powers of them leave the double range while every single quantity of the statement
+    #     (operator, data, log-densities) stays moderate
+    for dimdef in (False, True):
+        for psf, size, bc in (MAG_D1_OPTS if not T else [(p, (5, 4)[j % 2], b) for p in tp.PSF_NAMES
+                                                         for j, b in enumerate(tp.BC_1D)]):
+            for noise in NOISE:
+                for tag, std in MAG_LEVELS:
+                    if tag == "default" and not dimdef:
+                        continue                  # small dim x ordinary level: the cells above
+                    d1(128 if dimdef else 8, psf, size, bc, phantom="gauss", noise=noise, std=std, light=True,
+                       dimdef=dimdef, mag=tag)
     for dim in ((8,) if not T else (8, 16)):
         for psf in ("gauss", "sinc", "vonmises", "custom"):
             for noise in NOISE:
@@ -298,6 +329,15 @@ def cells(tier, seed):
     for ph in ("default", "camera", "resized"):
         for noise in NOISE:
             d2(5, "custom", 3, "mirror", noise, phantom=ph, light=True)
+    # --- (h) magnitude facet, Deconvolution2D: noise level x size {dim 5, dim 12 = 144 observations} x noise type
+    for dim in (5, 12):
+        for psf, size, bc in (MAG_D2_OPTS if not T else [(p, (3, 4)[j % 2], b) for p in ("gauss", "custom")
+                                                         for j, b in enumerate(tp.BC_2D)]):
+            for noise in NOISE:
+                for tag, std in MAG_LEVELS:
+                    if tag == "default" and dim == 5:
+                        continue
+                    d2(dim, psf, size, bc, noise, std=(0.0036 if tag == "default" else std), light=True, mag=tag)
 
     for dim in ((5, 8) if not T else (5, 8, 12)):
         for field in ("none", "KL", "KL-3", "Step"):
@@ -516,8 +556,11 @@ def check_noise(res, comp, facet, build, cov_readings, what, light=False):
         nz = _arr(pz.data).ravel() - _arr(pz.exactData).ravel()
         readings = cov_readings(y0)
         scale = max(float(np.max(np.abs(nz))), float(np.sqrt(np.max(np.abs(readings[0])))) * float(np.max(np.abs(z))), 1e-300)
+        # (data - exactData is formed in floating point: rounding of size eps * |data| is not the library's doing)
+        atol = 1e-9 + 8 * np.finfo(float).eps * float(np.max(np.abs(y0)) + np.max(np.abs(nz))) / scale
         hit = [i for i, v in enumerate(readings)
-               if any(close(nz / scale, sg * np.sqrt(np.asarray(v, float)) * z / scale, 1e-9) for sg in (1.0, -1.0))]
+               if any(close(nz / scale, sg * np.sqrt(np.asarray(v, float)) * z / scale, 1e-9, atol=atol)
+                      for sg in (1.0, -1.0))]
         if not hit:
             res.fail("C17|%s|noise-covariance|%s" % (comp, what),
                      "data - exactData for the scripted normal draw z is %r..., stated noise std * z = %r..." %
@@ -683,6 +726,13 @@ def _points(n, k, lo=None):
     return pts
 
 
+def _magsfx(cell):
+    """Signature suffix of the magnitude-facet cells (noise level x problem size); empty for all other cells."""
+    if "mag" not in cell:
+        return ""
+    return ",noise_std=%s,dim=%s" % (cell["mag"], "default" if cell.get("dimdef") else cell["dim"])
+
+
 def _info_std(res, comp, prob, noise, std):
     s = getattr(prob, "infoString", None)
     res.evaluations += 1
@@ -734,6 +784,7 @@ def eval_d1(res, cell):
         stag = _sizetag(size, dim)
         facet = "BC=%s,PSF=%s,PSF_size=%s" % (bc, cell["PSF"], stag)
         okw = {}
+        dkw = {} if cell.get("dimdef") else {"dim": dim}     # dimdef: ``dim`` left at its documented default (128)
         if size is not None:
             okw["PSF_size"] = size
         if par is not None:
@@ -742,7 +793,7 @@ def eval_d1(res, cell):
         def build(BC=None):
             # (BC given: the zero-boundary sibling used to read off the default PSF - plain Gaussian noise, so that it
             #  is constructible whatever the exact data are)
-            return cuqi.testproblem.Deconvolution1D(dim=dim, PSF=P, BC=_sp(cell, bc) if BC is None else BC,
+            return cuqi.testproblem.Deconvolution1D(PSF=P, BC=_sp(cell, bc) if BC is None else BC, **dkw,
                                                     noise_type=_sp(cell, cell["noise"]) if BC is None else "gaussian",
                                                     noise_std=cell["std"],
                                                     prior=_make_prior(cell.get("prior", "default"), dim, k),
@@ -831,7 +882,7 @@ def eval_d1(res, cell):
     res.state("noise")
     _info_std(res, comp, pz, cell["noise"], std)
     # (d)
-    check_components(res, comp, pz, var, _points(dim, k))
+    check_components(res, comp, pz, var, _points(dim, k), sfx=_magsfx(cell))
     res.state("components")
     # (e) non-initial state: after a point estimate / direct sampling on the SAME problem object the data and the
     #     posterior it hands out are still the ones checked above
@@ -929,7 +980,9 @@ def eval_d2(res, cell):
         res.outcomes.add("forward:ok")
     res.state("forward")
     check_exact_data(res, comp, "BC=%s" % bc, prob, True)
-    if given and not close(_arr(prob.exactSolution), refs.dyadic_vec(dim * dim, k + 1), 1e-15):
+    # (magnitude cells, dim 12: the library passes the phantom through its resize step also when the size already fits,
+    #  which leaves rounding of a few ulp - "is the phantom" is read up to 1e-12 there, 1e-15 elsewhere as before)
+    if given and not close(_arr(prob.exactSolution), refs.dyadic_vec(dim * dim, k + 1), 1e-12 if "mag" in cell else 1e-15):
         res.fail("C17|%s|exactSolution|phantom=%s" % (comp, cell["phantom"]), "exactSolution is not the (dim x dim) phantom "
                  "that was passed, row-major")
     if not given:
@@ -951,7 +1004,7 @@ def eval_d2(res, cell):
     res.state("noise")
     _info_std(res, comp, pz, cell["noise"], std)
     pts = [np.zeros(n), refs.dyadic_vec(n, k), refs.dyadic_vec(n, k + 2, scale=0.5)] + [np.eye(n)[i] for i in (0, n // 2, n - 1)]
-    check_components(res, comp, pz, var, pts)
+    check_components(res, comp, pz, var, pts, sfx=_magsfx(cell))
     res.state("components")
 
 
